@@ -1,12 +1,12 @@
 SPECIFICATION MCSpec
-CONSTANTS Key = {"a1", "s1"}
+CONSTANTS Key = {"a1", "a2", "s1"}
           MaxVal = 1
           MaxObjs = 4
           Readers = {1}
           AsyncModes = {TRUE, FALSE}
           RelinkSiblings = TRUE
           Depth = 0
-          MaxDiffKeys = 3
+          MaxDiffKeys = 1
           SlotKeys = {"s1"}
           MaxReads = 1
 INVARIANTS TypeOK LiveReadable ReadCorrect NoSpuriousStale LookupSound DescendantsExact Rooted DiskContent DiskAligned ChainsSound
